@@ -227,12 +227,6 @@ def gen_hint(src: str) -> str:
         raise Unsupported("HINT_PATH is not a string literal")
     mpath = metadata_path_literal(mod)
 
-    for fn, want in GOLDEN.items():
-        got = dump(strip_docstring(find_function(mod, fn, "MetadataManager").body))
-        if sha(got) != want:
-            raise Unsupported(f"{fn}: source shape changed (golden AST {want}, now {sha(got)}); the hand-written model in "
-                              f"Model/Hint.v must be re-validated against it.\n  now: {got}")
-
     fn = find_function(mod, "_parse_hint_content", "MetadataManager")
     if [a.arg for a in fn.args.args] != ["content"]:
         raise Unsupported("_parse_hint_content signature changed")
@@ -264,4 +258,23 @@ Definition gen_parse_hint (decoded : option (list cp)) : pres :=
     let text := strip raw_ in
     {term}
   end.
+"""
+
+
+@generator("GenHintPins.v")
+def gen_hint_pins(src: str) -> str:
+    """The golden-AST pins of the hand-modelled functions, in a file of their own: when a pinned function changes,
+    this file fails closed (every proof in Proofs/HintStoreProofs.v and Props/C10.v stops checking), while
+    GenHint.v and the Model/ files still compile -- so the correspondence harness can still run the OLD hand-written
+    model against the CHANGED code and turn the difference into a concrete failing input."""
+    mod = parse_module(src, "metadata_manager.py")
+    for fn, want in GOLDEN.items():
+        got = dump(strip_docstring(find_function(mod, fn, "MetadataManager").body))
+        if sha(got) != want:
+            raise Unsupported(f"{fn}: source shape changed (golden AST {want}, now {sha(got)}); the hand-written model in "
+                              f"Model/Hint.v must be re-validated against it.\n  now: {got}")
+    names = ", ".join(sorted(GOLDEN))
+    return f"""(* GENERATED by translator/gen_hint.py -- do not edit.
+   The bodies of {names} in src/datashard/metadata_manager.py have the AST shapes that Model/Hint.v models by hand. *)
+Definition hint_pins_ok : True := I.
 """
